@@ -400,6 +400,17 @@ def run_workload(w):
             if sched_in is not None and si < len(sched_in):
                 act = sched_in[si]
                 si += 1
+                # a directed schedule is best effort: steps that are not enabled here are skipped
+                if act[0] == "deliver":
+                    pend = {(p["job"], p["op"]) for p in ctl.pending}
+                    ops = [o for o in act[1] if tuple(o) in pend]
+                    if not ops:
+                        continue
+                    act = ["deliver", ops]
+                elif act[0] == "submit" and (act[1] != nxt or busy):
+                    continue
+                elif act[0] in ("wait", "exit") and (busy or wait["final"]):
+                    continue
             elif sched_in is not None and not w.get("then_random", True):
                 break
             else:
